@@ -3,9 +3,7 @@ package c15
 import (
 	"bytes"
 	"context"
-	"flag"
 	"fmt"
-	"io"
 	"net/http"
 	"net/http/httptest"
 	"os"
@@ -28,7 +26,6 @@ import (
 	"github.com/google/trillian/monitoring"
 	"google.golang.org/protobuf/encoding/prototext"
 	"google.golang.org/protobuf/proto"
-	"k8s.io/klog/v2"
 
 	"verifharness/ref"
 	"verifharness/vh"
@@ -37,13 +34,7 @@ import (
 func init() {
 	keys.RegisterHandler(&keyspb.PEMKeyFile{}, pem.FromProto)
 	keys.RegisterHandler(&keyspb.PrivateKey{}, der.FromProto)
-	fs := flag.NewFlagSet("klog", flag.ContinueOnError)
-	klog.InitFlags(fs)
-	_ = fs.Set("logtostderr", "false")
-	_ = fs.Set("alsologtostderr", "false")
-	_ = fs.Set("stderrthreshold", "FATAL")
-	klog.SetOutput(io.Discard)
-}
+} // (klog is set up in conn.go)
 
 // Job is one instance replay: an accepted configuration and a behaviour of the instance machine.
 type Job struct {
@@ -85,8 +76,12 @@ func guarded(rep *vh.Report, suspect func(site string) string, replay any, f fun
 
 func suspectSingle(c Cfg) func(string) string {
 	return func(string) string {
-		if c.Backend == "ctfe" && c.ConnStr == "mysql" {
-			return "connStr=mysql-no-separator"
+		if c.Backend == "ctfe" {
+			sh := connShapeOf(c.ConnStr)
+			if (sh.Scheme == "mysql" || sh.Scheme == "mysql+") && sh.Seps == 0 {
+				return "connStr=mysql-no-separator"
+			}
+			return "connStr=" + sh.Class()
 		}
 		return "unclassified"
 	}
@@ -189,6 +184,9 @@ func checkSingle(w *World, rep *vh.Report, fl files, idx int, cs Case) {
 		if f == "window" {
 			failed[i] = "window(" + windowShape(cs.C) + ")"
 		}
+		if f == "storage" {
+			failed[i] = "storage(" + connShapeOf(cs.C.ConnStr).Class() + ")"
+		}
 	}
 	var err error
 	var v *ctfe.ValidatedLogConfig
@@ -207,6 +205,29 @@ func checkSingle(w *World, rep *vh.Report, fl files, idx int, cs Case) {
 			rep.Violate("validated:frozen-sth-differs", "ValidatedLogConfig.FrozenSTH is not the configured STH", replay)
 		}
 		validatedWindow(rep, cs, v, wsp, replay)
+		validatedStorage(rep, msg, v, replay)
+	}
+	// the connection string decides the verdict: every concrete spelling of its shape
+	if cs.C.Backend == "ctfe" && onlyStorage(cs.Failed) {
+		sh := connShapeOf(cs.C.ConnStr)
+		if all := ConnStrings(sh); !coreShapes[sh.Name()] || idx%16 == 0 {
+			for _, conn := range all {
+				if conn == msg.CtfeStorageConnectionString {
+					continue
+				}
+				alt := proto.Clone(msg).(*configpb.LogConfig)
+				alt.CtfeStorageConnectionString = conn
+				var av *ctfe.ValidatedLogConfig
+				rp := map[string]any{"kind": "single", "case": cs, "variant": idx, "conn": conn}
+				if guarded(rep, sus, rp, func() { av, err = ctfe.ValidateLogConfig(proto.Clone(alt).(*configpb.LogConfig)) }) {
+					continue
+				}
+				verdictConn(rep, "ValidateLogConfig", "direct", cs.Valid, err, failed, conn, rp)
+				if err == nil && cs.Valid {
+					validatedStorage(rep, alt, av, rp)
+				}
+			}
+		}
 	}
 	// a window with both bounds: the verdict (and the validated bounds) under every other reading of the ranks, and the
 	// delays under another scale
@@ -267,10 +288,54 @@ func checkSingle(w *World, rep *vh.Report, fl files, idx int, cs Case) {
 	key := "single:" + strings.Join(cs.Failed, "+")
 	if cs.Valid {
 		key = fmt.Sprintf("single:valid:%v/%v/%s/%s/%s/%s", cs.C.IsMirror, cs.C.IsReadonly, cs.C.FrozenSth, cs.C.PubKey, cs.C.Backend, windowShape(cs.C))
+		if cs.C.Backend == "ctfe" {
+			key += "/" + connShapeOf(cs.C.ConnStr).Name()
+		}
 	} else if len(cs.Failed) == 1 && cs.Failed[0] == "window" {
 		key += ":" + windowShape(cs.C)
+	} else if len(cs.Failed) == 1 && cs.Failed[0] == "storage" {
+		key += ":" + connShapeOf(cs.C.ConnStr).Name()
 	}
 	rep.Eval(key)
+}
+
+// the shapes that also occur in the products with other field groups (ConnCore of the specification)
+var coreShapes = map[string]bool{"none/0/-/empty": true, "mysql/1/-/ok": true, "mysql/1/-/bad": true, "mysql/0/-/empty": true,
+	"postgres/1/-/ok": true, "other/1/-/ok": true, "mysql/2/user/ok": true}
+
+func onlyStorage(failed []string) bool {
+	for _, f := range failed {
+		if f != "storage" {
+			return false
+		}
+	}
+	return true
+}
+
+// verdictConn is verdict for one named spelling of the connection string (the string goes into the description).
+func verdictConn(rep *vh.Report, fn, form string, want bool, err error, failed []string, conn string, replay any) {
+	if want == (err == nil) {
+		return
+	}
+	f := append([]string{}, failed...)
+	sort.Strings(f)
+	ws := map[bool]string{true: "accept", false: "reject"}[want]
+	rep.Violate(fmt.Sprintf("verdict:%s:%s:want=%s:got=%s:failed=%s", fn, form, ws, errClass(err), strings.Join(f, "+")),
+		fmt.Sprintf("%s (%s form), ctfe_storage_connection_string %q: the specification says %s (failing conjuncts: %v), the implementation says %s (%v)",
+			fn, form, conn, ws, f, errClass(err), err), replay)
+}
+
+// validatedStorage: an accepted configuration carries the selected backend and its connection string (ValidatedCarriesStorage).
+func validatedStorage(rep *vh.Report, msg *configpb.LogConfig, v *ctfe.ValidatedLogConfig, replay any) {
+	if v.ExtraDataIssuanceChainStorageBackend != msg.ExtraDataIssuanceChainStorageBackend {
+		rep.Violate("validated:storage-backend-differs", fmt.Sprintf("ValidatedLogConfig selects chain storage backend %v, configured %v",
+			v.ExtraDataIssuanceChainStorageBackend, msg.ExtraDataIssuanceChainStorageBackend), replay)
+	}
+	if msg.ExtraDataIssuanceChainStorageBackend == configpb.LogConfig_ISSUANCE_CHAIN_STORAGE_BACKEND_CTFE &&
+		v.CTFEStorageConnectionString != msg.CtfeStorageConnectionString {
+		rep.Violate("validated:connection-string-differs", fmt.Sprintf("ValidatedLogConfig carries connection string %q, configured %q",
+			v.CTFEStorageConnectionString, msg.CtfeStorageConnectionString), replay)
+	}
 }
 
 // windowShape: how the two bounds of the NotAfter window relate.
@@ -678,6 +743,9 @@ func TestReplay(t *testing.T) {
 	if err != nil {
 		t.Fatal(err)
 	}
+	if err := checkConnCatalogue(); err != nil {
+		t.Fatal(err)
+	}
 	rep := vh.NewReport("c15-replay", "every case of MCLogConfig.tla (records of field states of LogConfig / LogConfigSet / LogMultiConfig with the model's "+
 		"verdict) materialized as configpb messages and given to ValidateLogConfig / ValidateLogConfigs / ValidateLogMultiConfig directly and through "+
 		"LogConfigFromFile / MultiLogConfigFromFile in text and binary form (accept/reject compared, panic = violation); NotAfter bounds are rank pairs "+
@@ -686,6 +754,10 @@ func TestReplay(t *testing.T) {
 		"with SetUpInstance on a fake Trillian log and replayed against a behaviour of the instance state machine (endpoint set, get-sth after every "+
 		"backend growth / source STH arrival); non-trivial = distinct set of failing conjuncts, or distinct (instance kind, key kind, behaviour shape)")
 	dir := t.TempDir()
+	if len(cases) > 0 {
+		// the storage layer on every spelling of every shape (one goroutine: the probe watches a process-wide dial hook)
+		checkStorage(rep, cases)
+	}
 	parallel(len(cases), func(k, i int) { checkSingle(w, rep, files{dir, k}, i, cases[i]) })
 	parallel(len(sets), func(k, i int) { checkSet(w, rep, files{dir, k}, i, sets[i]) })
 	parallel(len(multis), func(k, i int) { checkMulti(w, rep, files{dir, k}, i, multis[i]) })
